@@ -35,6 +35,10 @@ type modelJSON struct {
 		Text    string              `json:"text"`
 	} `json:"funcs"`
 	Universes map[string][]string `json:"universes"`
+	Maps      map[string]struct {
+		Len     int        `json:"len"`
+		Entries [][]string `json:"entries"`
+	} `json:"maps"`
 }
 
 type sx struct {
@@ -111,7 +115,18 @@ func (n *sx) String() string {
 	return "(" + strings.Join(ps, " ") + ")"
 }
 
+type replayArr struct {
+	elem  types.Type
+	sort  string
+	size  int
+	arrID int
+}
+
 type replayGen struct {
+	arrays  map[int]*replayArr // entry-heap backing arrays referred to by slice values of the model
+	cells   map[string]string  // sort@addr -> variable of a pointer cell
+	tracked []string
+	nIter   int // input iterators met so far (the engine numbers the sources of the harness parameters in order)
 	c       *Ctx
 	m       *modelJSON
 	pkg     *types.Package
@@ -279,9 +294,154 @@ func (g *replayGen) value(t types.Type, n *sx) string {
 		return fmt.Sprintf("%s{%s}", ts, strings.Join(fs, ", "))
 	case *types.Signature:
 		return g.funcValue(t, u, n)
+	case *types.Slice:
+		// (mk_Slice arr off len cap): a window of the entry-heap array arr; slices of the model that share
+		// arr share one Go backing array, so aliasing between the inputs is as in the model
+		if n.list == nil || len(n.list) != 5 {
+			g.fail("slice value %s", n)
+		}
+		var f [4]int
+		for i := 0; i < 4; i++ {
+			v, ok := numeral(n.list[i+1])
+			if !ok {
+				g.fail("slice value %s", n)
+			}
+			f[i], _ = strconv.Atoi(v)
+		}
+		arr, off, ln, cp := f[0], f[1], f[2], f[3]
+		if arr == 0 {
+			return fmt.Sprintf("(%s)(nil)", ts)
+		}
+		if arr < 0 || off < 0 || ln < 0 || cp < ln || off+cp > 128 {
+			g.fail("slice value %s (window too large or malformed)", n)
+		}
+		srt := g.c.SortOf(u.Elem())
+		a := g.arrays[arr]
+		if a == nil {
+			a = &replayArr{elem: u.Elem(), sort: sanitize(srt.Name), arrID: arr}
+			if g.arrays == nil {
+				g.arrays = map[int]*replayArr{}
+			}
+			g.arrays[arr] = a
+		} else if !types.Identical(a.elem, u.Elem()) {
+			g.fail("backing array %d used at two element types", arr)
+		}
+		if off+cp > a.size {
+			a.size = off + cp
+		}
+		return fmt.Sprintf("%s(replayArr%d[%d:%d:%d])", ts, arr, off, off+ln, off+cp)
+	case *types.Map:
+		// an address into the entry heap of map records; the present keys are listed by model2json over the finite
+		// universe of the key sort.  The model's len field is not tied to the number of present keys by the
+		// engine's map axioms, so a model where they differ has no real counterpart.
+		v, ok := numeral(n)
+		if !ok {
+			g.fail("map value %s", n)
+		}
+		if v == "0" {
+			return fmt.Sprintf("(%s)(nil)", ts)
+		}
+		key := "H0_" + sanitize(g.c.MapValSort(u).Name) + "@" + v
+		if name, ok := g.cells[key]; ok {
+			return name
+		}
+		mm, ok := g.m.Maps[key]
+		if !ok {
+			g.fail("map value at %s: not in the model", v)
+		}
+		if mm.Len != len(mm.Entries) {
+			g.fail("map model with len %d and %d present keys has no real counterpart", mm.Len, len(mm.Entries))
+		}
+		var es []string
+		for _, e := range mm.Entries {
+			if len(e) != 2 {
+				g.fail("map entry")
+			}
+			kn, err1 := parseSx(e[0])
+			vn, err2 := parseSx(e[1])
+			if err1 != nil || err2 != nil {
+				g.fail("map entry %v", e)
+			}
+			es = append(es, fmt.Sprintf("%s: %s", g.value(u.Key(), kn), g.value(u.Elem(), vn)))
+		}
+		if g.cells == nil {
+			g.cells = map[string]string{}
+		}
+		name := fmt.Sprintf("replayMap%d", len(g.cells)+1)
+		g.cells[key] = name
+		fmt.Fprintf(&g.helpers, "var %s = %s{%s}\n\n", name, ts, strings.Join(es, ", "))
+		g.tracked = append(g.tracked, name)
+		return name
+	case *types.Pointer:
+		if _, isStruct := u.Elem().Underlying().(*types.Struct); isStruct {
+			// the stand-ins of type parameters (VT_…) are structs in Go but opaque values in the model: one cell
+			if en, ok := types.Unalias(u.Elem()).(*types.Named); !ok || !strings.HasPrefix(en.Obj().Name(), "VT_") {
+				g.fail("pointer to struct %s", ts)
+			}
+		}
+		v, ok := numeral(n)
+		if !ok {
+			g.fail("pointer value %s", n)
+		}
+		if v == "0" {
+			return fmt.Sprintf("(%s)(nil)", ts)
+		}
+		srt := sanitize(g.c.SortOf(u.Elem()).Name)
+		key := srt + "@" + v
+		if name, ok := g.cells[key]; ok {
+			return name
+		}
+		if g.cells == nil {
+			g.cells = map[string]string{}
+		}
+		name := fmt.Sprintf("replayCell%d", len(g.cells)+1)
+		g.cells[key] = name
+		init := fmt.Sprintf("*new(%s)", g.typeStr(u.Elem()))
+		if hv, ok := g.m.Consts["H0_"+key]; ok {
+			if hn, err := parseSx(hv); err == nil {
+				init = g.value(u.Elem(), hn)
+			}
+		}
+		fmt.Fprintf(&g.helpers, "var %s = func() %s { p := new(%s); *p = %s; return p }()\n\n", name, ts, g.typeStr(u.Elem()), init)
+		g.tracked = append(g.tracked, name)
+		return name
 	}
 	g.fail("values of type %s are not replayed", ts)
 	return ""
+}
+
+// iterSource: the next input iterator of the harness, as a real fp.Iterator over the model's element sequence
+// (constants it<id>.n and it<id>.elems of the engine's source model, iter.go).
+func (g *replayGen) iterSource(nm *types.Named) string {
+	g.nIter++
+	et := nm.TypeArgs().At(0)
+	n := 0
+	if v, ok := g.m.Consts[fmt.Sprintf("it%d.n", g.nIter)]; ok {
+		if sv, err := parseSx(v); err == nil {
+			if num, ok := numeral(sv); ok {
+				n, _ = strconv.Atoi(num)
+			}
+		}
+	}
+	if n < 0 || n > 64 {
+		g.fail("input iterator of length %d", n)
+	}
+	var elems []string
+	for i := 0; i < n; i++ {
+		// model2json evaluates the element array pointwise: it<k>.elems@i
+		v, ok := g.m.Consts[fmt.Sprintf("it%d.elems@%d", g.nIter, i)]
+		if !ok {
+			elems = append(elems, fmt.Sprintf("*new(%s)", g.typeStr(et)))
+			continue
+		}
+		ev, err := parseSx(v)
+		if err != nil {
+			g.fail("%v", err)
+		}
+		elems = append(elems, g.value(et, ev))
+	}
+	g.imports[specPkg] = "verifspec"
+	return fmt.Sprintf("%sMakeIterator(verifspec.ReplaySource([]%s{%s}))", g.fpq(), g.typeStr(et), strings.Join(elems, ", "))
 }
 
 func (g *replayGen) fpq() string {
@@ -512,7 +672,9 @@ func Replay(p *Program, h *Harness, wit []witness, queryFile, repo, verif, outDi
 		cn := "p_" + prm.Name()
 		v, ok := m.Consts[cn]
 		var e string
-		if !ok {
+		if nm, isIt := isNamed(prm.Type(), "csgura/fp", "Iterator"); isIt {
+			e = g.iterSource(nm)
+		} else if !ok {
 			// unconstrained by the model: the zero value
 			e = fmt.Sprintf("*new(%s)", g.typeStr(prm.Type()))
 		} else {
@@ -522,8 +684,11 @@ func Replay(p *Program, h *Harness, wit []witness, queryFile, repo, verif, outDi
 			}
 			e = g.value(prm.Type(), n)
 		}
-		args = append(args, e)
 		descr = append(descr, fmt.Sprintf("%s = %s", prm.Name(), e))
+		if fn.Signature.Variadic() && prm == fn.Params[len(fn.Params)-1] {
+			e += "..."
+		}
+		args = append(args, e)
 	}
 	witCall := ""
 	if len(wit) > 0 {
@@ -542,6 +707,31 @@ func Replay(p *Program, h *Harness, wit []witness, queryFile, repo, verif, outDi
 		}
 		witCall = "\tverifspec.ReplayWitness(" + strings.Join(ws, ", ") + ")\n"
 		descr = append(descr, "witness of the universal clause = "+strings.Join(ws, ", "))
+	}
+	// backing arrays of the slice inputs (contents: the model's entry heap)
+	var arrIDs []int
+	for id := range g.arrays {
+		arrIDs = append(arrIDs, id)
+	}
+	sort.Ints(arrIDs)
+	for _, id := range arrIDs {
+		a := g.arrays[id]
+		var es []string
+		for j := 0; j < a.size; j++ {
+			e := fmt.Sprintf("*new(%s)", g.typeStr(a.elem))
+			if hv, ok := m.Consts[fmt.Sprintf("A0_%s@%d@%d", a.sort, id, j)]; ok {
+				if hn, err := parseSx(hv); err == nil {
+					e = g.value(a.elem, hn)
+				}
+			}
+			es = append(es, e)
+		}
+		fmt.Fprintf(&g.helpers, "var replayArr%d = []%s{%s}\n\n", id, g.typeStr(a.elem), strings.Join(es, ", "))
+		g.tracked = append(g.tracked, fmt.Sprintf("replayArr%d", id))
+		descr = append(descr, fmt.Sprintf("replayArr%d = []%s{%s}", id, g.typeStr(a.elem), strings.Join(es, ", ")))
+	}
+	if len(g.tracked) > 0 {
+		witCall += "\tverifspec.ReplayTrack(" + strings.Join(g.tracked, ", ") + ")\n"
 	}
 	var targs []string
 	for _, ta := range fn.TypeArgs() {
